@@ -28,6 +28,8 @@ class Ctx:
         self.nontrivial = set()
         self.outcomes = {}
         self.violations = {}
+        #: number of violation() calls (the dict above keeps one per kind)
+        self.nviol = 0
         self.samples = []
         self.extra = {}
         self.cap_hit = False
@@ -81,6 +83,7 @@ class Ctx:
         Returns True when the signature matches a listed known finding (the
         explorer may then keep extending the history instead of stopping)."""
         known = any(k["re"].fullmatch(sig) for k in self._known)
+        self.nviol += 1
         ent = self.violations.get(sig)
         if ent is not None:
             ent["count"] += 1
